@@ -14,6 +14,7 @@
 package store
 
 import (
+	"bytes"
 	"container/list"
 	"errors"
 	"fmt"
@@ -271,6 +272,11 @@ func (s *CAStore) addToMemoryCache(
 		// The reservation covers exactly size bytes; holding a blob of any other
 		// length would make the memory cache accounting drift from what it stores.
 		return fmt.Errorf("blob length %d does not match reserved size %d", len(data), size)
+	}
+	// The entry becomes readable as soon as it is added, long before the drain
+	// re-verifies it on its way to disk, so the content must be verified here.
+	if err := s.verify(bytes.NewReader(data), name); err != nil {
+		return fmt.Errorf("verify digest: %s", err)
 	}
 	metaInfo, err := s.generateMetadataFromBytes(name, data, pieceLength)
 	if err != nil {
